@@ -3,7 +3,7 @@
 From Coq Require Import List NArith ZArith Bool Lia.
 From Verif Require Import Common.GoInt Gen.Sequence GenProofs.SequenceProofs.
 From Verif Require Import Chain.Model Chain.Proofs Chain.ProofsWalk Chain.ProofsSys Chain.ProofsPath Chain.Examples
-  LogDB.Model LogDB.Proofs LogDB.ProofsCanon LogDB.ProofsRows LogDB.ProofsGenesis LogDB.ProofsSync LogDB.ProofsVerify.
+  LogDB.Model LogDB.Proofs LogDB.ProofsCanon LogDB.ProofsRows LogDB.ProofsGenesis LogDB.ProofsSync LogDB.ProofsSyncFrame LogDB.ProofsVerify.
 Import ListNotations.
 Open Scope N_scope.
 
@@ -108,6 +108,17 @@ Proof.
   destruct (filter_is_subsequence_events db cs o out F) as [full [H1 [H2 [H3 _]]]]. exists full. auto.
 Qed.
 
+Theorem filter_on_canonical_logs_transfers g gp tag r db st cs o out : num_of g = 0 -> imported g gp tag r db ->
+  is_path r (r_best r) st -> filter_transfers db cs o = Some out ->
+  exists full,
+    sublist full (if fo_desc o then rev (chain_transfers r st) else chain_transfers r st) /\
+    (forall x, In x full <-> In x (chain_transfers r st) /\ any_crit tr_match cs x = true /\ in_range o (tr_seq x)) /\
+    out = match fo_page o with None => full | Some (off, lim) => takeN lim (dropN off full) end.
+Proof.
+  intros Hg I P F. destruct (logdb_is_canonical_logs g gp tag r db Hg I st P) as [_ E]. rewrite <- E.
+  destruct (filter_is_subsequence_transfers db cs o out F) as [full [H1 [H2 [H3 _]]]]. exists full. auto.
+Qed.
+
 (* 5b. genesis rows.  A running node's log db also holds the events / transfers of the genesis builder, written at every
        start by cmd/thor/utils.go:initChainRepository as rows of block 0 (the repository stores genesis without
        receipts, so they are not part of chain_events).  For every import history that starts from ANY tables d0 whose
@@ -150,6 +161,29 @@ Proof.
   intros Hg R Px Pb Hdb Hs. pose proof (reachable_wf _ _ _ _ _ Hg R) as W. pose proof (reachable_wf_body _ _ _ _ _ Hg R) as WB.
   pose proof (sync_reestablishes_lemma g gp r W WB x st_x st_b db Px Pb Hdb db' Hs) as H.
   split; [exact H|]. exact (rows_of_path_flat r st_b WB (path_desc g gp r W _ _ Pb) db' H).
+Qed.
+
+(* 6b. the re-sync on the tables of a real node, which also hold the genesis rows (block 0, block ids of number 0): sync_logdb
+       ignores and preserves such a prefix (sync_logdb_commutes_with_genesis_rows), so 6 lifts: from "genesis rows ++ the
+       canonical tables of any stored block x" a successful re-sync yields "genesis rows ++ the logs of best's chain".
+       Like 6 this is conditional on sync_logdb returning Some (no totality theorem: a Write can fail on a key out of the
+       28 / 15 / 20-bit ranges); the verify variants 7(a)-(c) are NOT lifted to tables with genesis rows. *)
+Theorem sync_logdb_commutes_with_genesis_rows g gp tag adm r d0 db : num_of g = 0 -> reachable g gp tag adm r ->
+  below two35 d0 -> genesis_ids d0 -> sync_logdb r (frame d0 db) = option_map (frame d0) (sync_logdb r db).
+Proof.
+  intros Hg R B0 G0. exact (sync_logdb_frame g gp r d0 (reachable_wf _ _ _ _ _ Hg R) (reachable_wf_body _ _ _ _ _ Hg R) B0 G0 db).
+Qed.
+
+Theorem sync_reestablishes_canonical_with_genesis_rows g gp tag adm r x st_x st_b d0 db D :
+  num_of g = 0 -> reachable g gp tag adm r -> below two35 d0 -> genesis_ids d0 ->
+  is_path r x st_x -> is_path r (r_best r) st_b -> rows_of_path r st_x = Some db ->
+  sync_logdb r (frame d0 db) = Some D ->
+  db_events D = db_events d0 ++ chain_events r st_b /\ db_transfers D = db_transfers d0 ++ chain_transfers r st_b.
+Proof.
+  intros Hg R B0 G0 Px Pb Hdb Hs. rewrite (sync_logdb_commutes_with_genesis_rows g gp tag adm r d0 db Hg R B0 G0) in Hs.
+  destruct (sync_logdb r db) as [db'|] eqn:E; [|discriminate]. injection Hs as <-.
+  destruct (sync_reestablishes_canonical g gp tag adm r x st_x st_b db db' Hg R Px Pb Hdb E) as [_ [E1 E2]].
+  unfold frame. cbn [db_events db_transfers]. rewrite E1, E2. auto.
 Qed.
 
 (* 7. syncLogDB's verify argument (verifyLogDB: 100-block windows re-read from the tables, the leading rows carrying the
@@ -460,6 +494,18 @@ Example ex_c15_over_ancestry_genesis_rows :
   length (db_events ex_d0) = 1%nat /\ length (LC.rows_ev ex_r4 [bid 1 1; bid 2 2; bid 3 1]) = 2%nat.
 Proof. vm_compute. repeat split. Qed.
 
+(* non-vacuity of 6b: ex_d0 (what Write(genesis, one receipt) leaves) satisfies both premises, and the F11 situation of
+   ex_c15_sync with those rows in front re-syncs to "genesis rows ++ canonical logs" *)
+Example ex_c15_sync_genesis_rows :
+  below two35 ex_d0 /\ genesis_ids ex_d0 /\
+  (exists dbx, rows_of_path ex_r5 [bid 2 2; bid 1 1; ex_g] = Some dbx /\
+     option_map (fun d => map (fun x => seq_block (er_seq x)) (db_events d)) (sync_logdb ex_r5 (frame ex_d0 dbx)) = Some [0; 2; 2; 3]).
+Proof.
+  split; [split; intros x Hx; vm_compute in Hx; destruct Hx as [<-|[]]; vm_compute; reflexivity|].
+  split; [split; intros x Hx; vm_compute in Hx; destruct Hx as [<-|[]]; vm_compute; reflexivity|].
+  eexists. split; [vm_compute; reflexivity|]. vm_compute. reflexivity.
+Qed.
+
 Print Assumptions seq_pack_inj_mono.
 Print Assumptions seq_model_is_translated.
 Print Assumptions filter_is_subsequence_events.
@@ -470,9 +516,12 @@ Print Assumptions logdb_tracks_canonical.
 Print Assumptions canonical_path_exists.
 Print Assumptions logdb_is_canonical_logs.
 Print Assumptions filter_on_canonical_logs.
+Print Assumptions filter_on_canonical_logs_transfers.
 Print Assumptions write_block_appends_rows.
 Print Assumptions logdb_tracks_canonical_after_genesis_rows.
 Print Assumptions sync_reestablishes_canonical.
+Print Assumptions sync_logdb_commutes_with_genesis_rows.
+Print Assumptions sync_reestablishes_canonical_with_genesis_rows.
 Print Assumptions sync_verify_reestablishes_canonical.
 Print Assumptions verify_accepts_canonical_prefix.
 Print Assumptions sync_verify_raises_no_false_alarm.
